@@ -10,6 +10,7 @@ package route
 //    fails a lookup; every redirect Location is the request's own; a swapper replaces the table.
 
 import (
+	"runtime"
 	"runtime/debug"
 	"fmt"
 	"net/http"
@@ -220,8 +221,17 @@ func TestVerifC06Stress(t *testing.T) {
 	lines = append(lines, `route add rd rd.com/ https://to.com/$path opts "redirect=301"`,
 		`route add rdb rd2.com/ https://to.com$path opts "redirect=301"`, `route add rdc rd3.com/ https://to.com/new$path opts "redirect=301"`)
 	text := strings.Join(lines, "\n")
+	// the swapper alternates between two tables whose host patterns are spelled differently and route to
+	// different services: a lookup is answered by the table it loaded, whatever a cache remembers of another one
+	textB := strings.NewReplacer("route add g", "route add b", " *.h", " x*.h").Replace(text)
+	nmk := 0
 	mk := func() Table {
-		tb, err := newTableFromText(text)
+		nmk++
+		tx := text
+		if nmk%2 == 0 {
+			tx = textB
+		}
+		tb, err := newTableFromText(tx)
 		if err != nil {
 			panic(err)
 		}
@@ -244,6 +254,11 @@ func TestVerifC06Stress(t *testing.T) {
 			default:
 				SetTable(mk())
 				atomic.AddInt64(&swaps, 1)
+				// let a table live for a while: state a lookup on the previous table leaves behind must not
+				// reach the lookups on this one
+				for k := 0; k < 300; k++ {
+					runtime.Gosched()
+				}
 			}
 		}
 	}()
@@ -255,10 +270,22 @@ func TestVerifC06Stress(t *testing.T) {
 			defer wg.Done()
 			defer c06Guard()
 			for i := 0; i < iters; i++ {
-				h := (i*13 + g*7) % 40
-				tg := GetTable().Lookup(c06Req(fmt.Sprintf("x%d.h%d.com", g, h), "/p"), "", rrPicker, prefixMatcher, gc, false)
+				h := ((i/6)*13 + g*7) % 40 // the same host several times in a row, all goroutines on few hosts at a time
+				if i%2 == 1 {
+					h = (i / 16) % 40
+				}
+				tb := GetTable()
+				letter := "g"
+				if _, isA := tb["*.h0.com"]; !isA {
+					letter = "b"
+				}
+				xg := g
+				if i%2 == 1 {
+					xg = 0 // every goroutine asks for the same host
+				}
+				tg := tb.Lookup(c06Req(fmt.Sprintf("x%d.h%d.com", xg, h), "/p"), "", rrPicker, prefixMatcher, gc, false)
 				atomic.AddInt64(&lookups, 1)
-				if tg == nil || tg.Service != fmt.Sprintf("g%d", h) {
+				if tg == nil || tg.Service != fmt.Sprintf("%s%d", letter, h) {
 					verifx.Fail(map[string]any{"g": g, "i": i}, map[string]any{"sub": "stress", "clause": "glob-lookup"},
 						"lookup of x%d.h%d.com returned %v, want service g%d", g, h, tg, h)
 				}
@@ -327,5 +354,40 @@ func TestVerifC06Stress(t *testing.T) {
 		}(g)
 	}
 	wg.Wait()
-	verifx.Summary(map[string]any{"decisions": atomic.LoadInt64(&decisions), "rr_lookups": total, "ring": U, "lookups": atomic.LoadInt64(&lookups), "swaps": atomic.LoadInt64(&swaps), "cache_keys": len(keys)})
+	// (f) every matcher (proxy.matcher = prefix | iprefix | glob): the route a request's path selects depends on
+	// that path alone, whatever paths other requests are being matched against at the same moment
+	var ml []string
+	for i := 0; i < G; i++ {
+		ml = append(ml, fmt.Sprintf("route add m%d mm.com/Orders%d/ http://m%d:80/", i, i, i))
+		ml = append(ml, fmt.Sprintf("route add q%d gg.com/q%d/* http://q%d:80/", i, i, i))
+	}
+	mt, err := newTableFromText(strings.Join(ml, "\n"))
+	if err != nil {
+		t.Fatal(err)
+	}
+	var matched int64
+	for g := 0; g < G; g++ {
+		wg.Add(1)
+		go func(g int) {
+			defer wg.Done()
+			defer c06Guard()
+			gcm := NewGlobCache(8)
+			for i := 0; i < iters; i++ {
+				for _, c := range []struct{ m, host, path, want string }{
+					{"prefix", "mm.com", fmt.Sprintf("/Orders%d/%d", g, i), fmt.Sprintf("m%d", g)},
+					{"iprefix", "mm.com", fmt.Sprintf("/oRDers%d/%d", g, i), fmt.Sprintf("m%d", g)},
+					{"glob", "gg.com", fmt.Sprintf("/q%d/%d", g, i), fmt.Sprintf("q%d", g)},
+				} {
+					tg := mt.Lookup(c06Req(c.host, c.path), "", rrPicker, Matcher[c.m], gcm, false)
+					atomic.AddInt64(&matched, 1)
+					if tg == nil || tg.Service != c.want {
+						verifx.Fail(map[string]any{"g": g, "i": i}, map[string]any{"sub": "stress", "clause": "matcher-own", "matcher": c.m},
+							"matcher %s: the request for %s%s was routed to %v while other requests were being matched; its own route is %s", c.m, c.host, c.path, tg, c.want)
+					}
+				}
+			}
+		}(g)
+	}
+	wg.Wait()
+	verifx.Summary(map[string]any{"matched": atomic.LoadInt64(&matched), "decisions": atomic.LoadInt64(&decisions), "rr_lookups": total, "ring": U, "lookups": atomic.LoadInt64(&lookups), "swaps": atomic.LoadInt64(&swaps), "cache_keys": len(keys)})
 }
